@@ -25,6 +25,19 @@ claims = {
        "written), compile-phase errors.",
   note=TB + " Line/column arithmetic of jsight-schema-core is an assumed contract (abstract functions lineOf/colOf).",
   ref="§6 C07", category="other"),
+ "C03": dict(
+  text="Proof, per fault class and per enforcing function, of 'if the fault condition holds on entry the result is an error located at the directive's keyword and the "
+       "guarded state is unchanged': duplicate tag/server (Catalog.AddTag/AddServer), repeated JSIGHT/INFO/Title/Version/Description/BaseUrl (AddJSight, AddInfo, AddTitle, "
+       "AddVersion, AddDescriptionToInfo, AddBaseURL), duplicate macro (addMacro), undefined macro (processPasteDirective), missing parameter / forbidden annotation / "
+       "unsupported version (core.addJSight, addTitle, addVersion, addServer), JSIGHT not first (buildCatalog), incorrect context (processContext, shared with C11); the "
+       "generated ordered maps are verified against an abstract view (Set keeps keys distinct and changes only the given key). Not under contract yet: types, enums, "
+       "interactions, OperationId, paths, tags, request/response setters; composition over a whole document is not decided.",
+  note=TB + " addDirectives and the handler dispatch are assumed (trusted) contracts.", ref="§6 C03"),
+ "C05": dict(
+  text="Proof of the representation invariant of the generated ordered maps (keys of the order list pairwise distinct and all present in the data map, Set changes exactly "
+       "one key) for Tags, Servers, UserTypes, UserRules and Interactions, of the catalog invariant through AddTag/AddServer (names unique, stored value non-nil, tag name equals "
+       "its key), and of 'a successful addJSight leaves JSightVersion == 0.3'. Not decided: interaction ids, tag <-> interaction cross references, path variables, used user types.",
+  note=TB, ref="§6 C05"),
  "C06": dict(
   text="Sufficient conditions for determinism, each decided mechanically on the SSA of /repo's working tree: (1) map-order: every range over a Go map in the module has an "
        "order-insensitive body (only keyed map updates, constant stores, pure calls, sorted accumulation, no loop-computed value leaving the loop) or is an explicitly listed "
@@ -77,6 +90,12 @@ claims = {
        "Stack.Push refuses a file whose name is on the stack (recursion error) and Pop forgets exactly the popped name.",
   note=TB + " Assumed lemma: filepath.Join(d, p) stays below d for a relative dot-free p; assume clauses of Stack.Pop (ownership of stacked scanners; names of the remaining items stay registered).",
   ref="§6 C14"),
+ "C17": dict(
+  text="Panic clause only, thin: schemaObjectFromExchangeSchema's explicit panics are unreachable under its precondition (well-formed exchange schema whose notation is not "
+       "'empty'), and newSchemas - which converts every user type - must establish it for every user type of a built catalog. It cannot for `TYPE @x empty`: recorded known "
+       "finding D13 (ToOpenAPIJson panics). The structural clauses of the statement ($ref resolution, parameters, response keys) are produced inside jsight-schema-core/openapi "
+       "and are not decided.",
+  note=TB + " userTypesOK (the shape of a built catalog's user types) is a precondition that the build is not yet proved to establish.", ref="§6 C17", category="other"),
  "C19": dict(
   text="Proof of the ban-check obligations at every place a directive keyword is consumed: setCurrentDirective (all directives, including MACRO, PASTE and "
        "bodies of unused macros), processInclude (INCLUDE) and addDirective return the not-allowed error located at the keyword when the kind is banned; "
@@ -91,7 +110,7 @@ not_applicable = {
  "C18": "schedules and data races: the translation is sequential (sync.* erased), no permission logic",
 }
 # properties not yet claimed in this revision are listed as not_applicable with the reason "not yet under contract"
-pending = ["C03","C04","C05","C08","C16","C17"]
+pending = ["C04","C08","C16"]
 
 checks = []
 for pid in sorted(claims):
